@@ -61,7 +61,7 @@ package pack
 //@   mode bv
 //@   requires d != nil && len(d.s) >= 2
 //@   modifies d.s
-//@   ensures! value: n == (uint16(old(d.s[0])) << 8 | uint16(old(d.s[1])))
+//@   ensures! value: n == uint16(old(d.s[0])) * 256 + uint16(old(d.s[1]))
 //@   ensures! rest: d.s == old(d.s[2:])
 
 //@ func (e *Encoder) Uint32(n) (r)
@@ -75,7 +75,7 @@ package pack
 //@   mode bv
 //@   requires d != nil && len(d.s) >= 4
 //@   modifies d.s
-//@   ensures! value: n == (uint32(old(d.s[0])) << 24 | uint32(old(d.s[1])) << 16 | uint32(old(d.s[2])) << 8 | uint32(old(d.s[3])))
+//@   ensures! value: n == uint32(old(d.s[0])) * 16777216 + uint32(old(d.s[1])) * 65536 + uint32(old(d.s[2])) * 256 + uint32(old(d.s[3]))
 //@   ensures! rest: d.s == old(d.s[4:])
 
 //@ func (e *Encoder) Int32(n) (r)
